@@ -202,7 +202,7 @@ class Provider:
         def token():
             return server.create_token_response()
 
-        @app.route("/api", methods=["GET", "POST"])
+        @app.route("/api", methods=["GET", "POST", "PUT", "PATCH", "DELETE"])
         @require()
         def api():
             return Response(json.dumps({"token": current_credential.get_oauth_token()}), mimetype="application/json")
@@ -309,6 +309,7 @@ class DjangoProvider:
 
 
 PATHS = {"initiate": "/initiate", "authorize": "/authorize", "exchange": "/token", "access": "/api"}
+BODY_METHODS = ("POST", "PUT", "PATCH", "DELETE")      # a form-encoded entity body is signed whatever the method (RFC 5849 3.4.1.3.1)
 
 
 def render_header(auth):
@@ -326,7 +327,7 @@ def send(prov, op):
         headers["X-User"] = op["user"]
     url = r["uri"][len(BASE):]
     data = None
-    if r["method"].upper() in ("POST", "PUT"):
+    if r["method"].upper() in BODY_METHODS and (r["body"] or r["method"].upper() in ("POST", "PUT")):
         data = dict(r["body"])
     resp = prov.client.open(url, method=r["method"], base_url=BASE, headers=headers, data=data)
     return resp
@@ -437,8 +438,8 @@ def build_req(ctx, kind, spec):
     http = spec.get("http", "POST")
     placement = spec.get("placement", "header")
     extra_q = list(spec.get("extra_query", []))
-    extra_b = list(spec.get("extra_body", [])) if http.upper() in ("POST", "PUT") else []
-    if placement == "body" and http.upper() not in ("POST", "PUT"):
+    extra_b = list(spec.get("extra_body", [])) if http.upper() in BODY_METHODS else []
+    if placement == "body" and http.upper() not in BODY_METHODS:
         placement = "query"
 
     def assemble(oauth_list):
@@ -862,6 +863,9 @@ def golden(ctx, supported):
                 s["ts"] = str(clock[0] + 200000)
             if dev == "access-near-future-ts":
                 s["ts"] = str(clock[0] + 290)
+            if dev in ("access-put-form", "access-patch-form", "access-delete-form"):
+                s["http"] = dev.split("-")[1].upper()
+                s["extra_body"] = [("f", "v 1"), ("a", "~")]
             if dev in ("access-repeated-query", "access-appended-unsigned"):
                 s["extra_query"] = [("a", "1"), ("a", "2"), ("b", "")] if dev == "access-repeated-query" else [("a", "1")]
             sign_defaults(s, "c1", k[2])
@@ -890,7 +894,8 @@ def golden(ctx, supported):
 
     for dev in ("none", "unapproved", "denied", "other-client", "wrong-verifier", "wrong-temp-secret", "exchange-twice", "replay-exchange",
                 "tick-temp-expired", "access-wrong-token-secret", "replay-access", "access-other-client", "access-future-ts",
-                "access-near-future-ts", "initiate-near-future-replay", "access-repeated-query", "access-appended-unsigned"):
+                "access-near-future-ts", "initiate-near-future-replay", "access-repeated-query", "access-appended-unsigned",
+                "access-put-form", "access-patch-form", "access-delete-form"):
         r = flow(dev)
         if r:
             seqs.append((dev, r[0], r[1]))
